@@ -232,9 +232,22 @@ impl Prop for MetadataMismatch {
         // loaded base voice changed in memory (every field in turn over the cases), the odd object at
         // the generated position - still "voices whose metadata differ"
         {
+            // in two thirds of the cases the voice family carries one or two FURTHER streams (copies
+            // of its last stream under new names - the format puts no bound on NUM_STREAMS), and the
+            // edited field may belong to one of them
+            let extra = (c.pick + c.position) % 3;
+            let mut wide = (*base_v).clone();
+            for j in 0..extra {
+                let last = wide.stream_models[wide.stream_models.len() - 1].clone();
+                wide.stream_models.push(last);
+                wide.metadata.num_streams += 1;
+                wide.metadata.stream_type.push(format!("AUX{}", j));
+            }
+            let base_v = Arc::new(wide);
+            ensure!(VoiceSet::new(vec![base_v.clone(); c.nvoices.max(1)]).is_ok(), "identical-rejected", "{} identical voice objects with {} streams were rejected", c.nvoices.max(1), base_v.stream_models.len());
             let mut m = (*base_v).clone();
             let ns = m.stream_models.len();
-            let (k, si) = (c.pick + 6 * c.position + 18 * (c.base.num_states % 3), c.pick % ns);
+            let (k, si) = (c.pick + 6 * c.position + 18 * (c.base.num_states % 3), (c.pick + 2 * c.position + c.base.num_states + c.nvoices) % ns);
             let what = match k % 13 {
                 0 => { m.metadata.num_streams += 1; "num_streams" }
                 1 => { m.metadata.num_states += 1; "num_states" }
@@ -252,7 +265,7 @@ impl Prop for MetadataMismatch {
             };
             let edited = Arc::new(m);
             let list: Vec<Arc<Voice>> = (0..c.nvoices).map(|i| if i == c.position { edited.clone() } else { base_v.clone() }).collect();
-            ensure!(VoiceSet::new(list).is_err(), "mismatch-accepted", "a voice object whose {} was changed in memory (position {} of {}) was combined with the unchanged voice without an error", what, c.position, c.nvoices);
+            ensure!(VoiceSet::new(list).is_err(), "mismatch-accepted", "a voice object whose {} (stream {} of {} where per-stream) was changed in memory (position {} of {}) was combined with the unchanged voice without an error", what, si, ns, c.position, c.nvoices);
         }
         // through Engine::load as well (files)
         // half of the cases: both files have the same file name, in different directories
